@@ -9,6 +9,7 @@ import (
 	"testing"
 
 	"github.com/smarthome-go/homescript/v3/homescript/runtime"
+	"github.com/smarthome-go/homescript/v3/homescript/runtime/value"
 	"verif.local/simrt"
 )
 
@@ -590,14 +591,18 @@ func genReference(t *testing.T, gseed uint64, src string, which, arg int) (int64
 	if e, ok := genRefCache[key]; ok {
 		return genRefVal[key], e
 	}
-	full := src + fmt.Sprintf("fn main() { println(e%d(%d)); }\n", which, arg)
-	prog, err := MustCompile(Single(full))
+	if len(genRefCache) > 200000 {
+		genRefCache, genRefVal = map[string]string{}, map[string]int64{}
+	}
+	// one compiled program per generator seed; every reference call runs on a VM of its own
+	prog, err := MustCompile(Single(src + "fn main() {}\n"))
 	if err != nil {
 		genRefCache[key] = "does not compile: " + err.Error()
 		return 0, genRefCache[key]
 	}
 	env := newVMEnv(prog, generousLimits)
 	var outc outcome
+	var val int64
 	func() {
 		defer func() {
 			if r := recover(); r != nil {
@@ -605,17 +610,28 @@ func genReference(t *testing.T, gseed uint64, src string, which, arg int) (int64
 			}
 		}()
 		env.boot()
-		env.vm.SpawnAsync(runtime.MainFn(), nil, nil, nil)
-		num, i := env.vm.Wait()
-		outc = classify(num, i)
+		inv, ierr := c16Invocation(prog, fmt.Sprintf("e%d", which), []value.Value{vInt(int64(arg))})
+		if ierr != nil {
+			outc = outcome{Kind: "panic", Msg: ierr.Error()}
+			return
+		}
+		r := env.vm.SpawnSync(inv, nil, nil)
+		if r.Exception != nil {
+			outc = classify(r.Exception.CoreNum, &r.Exception.Interrupt)
+			return
+		}
+		iv, ok := r.ReturnValue.(value.ValueInt)
+		if !ok {
+			outc = outcome{Kind: "panic", Msg: "reference call did not return an int"}
+			return
+		}
+		val = iv.Inner
+		outc = outcome{Kind: "completed"}
 	}()
-	lines := env.out.Lines()
-	if outc.Kind != "completed" || len(lines) != 1 {
+	if outc.Kind != "completed" {
 		genRefCache[key] = "reference run: " + outc.Kind + " " + firstLine(outc.Msg)
 		return 0, genRefCache[key]
 	}
-	var val int64
-	fmt.Sscanf(lines[0], "%d", &val)
 	genRefCache[key], genRefVal[key] = "", val
 	return val, ""
 }
